@@ -171,7 +171,7 @@ function loadKnown() {
 }
 
 function writeEvidence(id, ev) {
-  const dir = path.join(ROOT, 'evidence');
+  const dir = process.env.VERIF_EVIDENCE_DIR || path.join(ROOT, 'evidence');
   fs.mkdirSync(dir, { recursive: true });
   fs.writeFileSync(path.join(dir, id + '.json'), JSON.stringify(ev, null, 1) + '\n');
 }
@@ -226,7 +226,7 @@ async function parentMain(id, tier, opts) {
     const n = knownHits.filter((x) => x.finding === h.finding).reduce((a, x) => a + x.v.count, 0);
     lines.push(`KNOWN-FINDING: property=${id} ${h.finding.what} [clause=${h.finding.clause}; minimal=${h.finding.minimal}; failing cases this run=${n}]`);
   }
-  const replayDir = path.join(ROOT, 'replay', id);
+  const replayDir = path.join(process.env.VERIF_REPLAY_DIR || path.join(ROOT, 'replay'), id);
   const violLines = [];
   if (unknown.length) fs.mkdirSync(replayDir, { recursive: true });
   for (const v of unknown) {
